@@ -10,6 +10,9 @@ position j to `<dump>.tmp` and renames it over `<dump>`; `checkSerializing` repo
 for the child.  The dump on disk (position j) no longer covers the journal head (k-1): after kill + restart
 `__loadDumpFile(clearJournal=False)` clears the journal — every entry F acknowledged beyond j is gone.
 
+The child is started at three moments (`WHEN`): before the first chunk of the leader's snapshot, between two chunks of
+the multi-chunk transfer, and right before the last chunk is processed; it is always released after the install.
+
 Monitors = property text: (C09) the dump file is the newest complete snapshot the node wrote or installed; (C06) after
 kill/restart the node still holds everything it acknowledged.
 """
@@ -37,7 +40,11 @@ def _dump_pos(sim, fn):
         return "unreadable: " + type(e).__name__
 
 
-def scenario(repo, tmpdir, seed=1):
+WHEN = ("before-first-chunk", "between-chunks", "before-last-chunk")
+
+
+def scenario(repo, tmpdir, seed=1, when="before-first-chunk"):
+    """`when`: the moment the follower forks its own dump child relative to the chunks of the leader's snapshot."""
     if not hasattr(os, "fork"):
         return None, [], {"note": "no fork on this platform"}
     for name in ("pysyncobj.syncobj", "pysyncobj.serializer"):
@@ -49,7 +56,7 @@ def scenario(repo, tmpdir, seed=1):
               conf={"useFork": False, "logCompactionMinEntries": 100000, "logCompactionMinTime": 100000,
                     "logCompactionBatchSize": 64})
     import pysyncobj.serializer as sermod
-    notes, viols = {}, []
+    notes, viols = {"when": when}, []
     sim.connect_all()
     L = sim.elect()
     F = [i for i in sim.voters if i != L][0]
@@ -68,8 +75,21 @@ def scenario(repo, tmpdir, seed=1):
     sim.compact(L)
     sim.run(4, among=[L, G])
     k_pos = sim.P(L, "raftLog")[1][1]
+    j_pos = sim.P(F, "raftLastApplied")
+    notes["own_dump_position"] = j_pos
 
-    # F starts its own dump at j; the real fork child is held at its first open(.., 'wb') until the pipe is written
+    # verdicts of checkSerializing on the follower (SUCCESS for a stopped child would trim for a dump that is not there)
+    verdicts = []
+    real_check = f_ser.checkSerializing
+
+    def watched_check():
+        r = real_check()
+        if r[0] in (2, 3):
+            verdicts.append(r)
+        return r
+    f_ser.checkSerializing = watched_check
+
+    # the real fork child is held at its first open(.., 'wb') until the pipe is written
     parent = os.getpid()
     rfd, wfd = os.pipe()
     saved_open = sermod.__dict__.get("open")
@@ -79,25 +99,50 @@ def scenario(repo, tmpdir, seed=1):
             os.read(rfd, 1)
         return open(path, mode, *a, **kw)
     sermod.open = gated_open
-    child = 0
-    try:
-        j_pos = sim.P(F, "raftLastApplied")
+    child = [0]
+
+    def start_child():
         sim.compact(F)
-        sim.tick(F, 0.0625)
-        child = getattr(f_ser, "_Serializer__pid")
-        notes["own_dump_position"] = j_pos
-        notes["child_forked"] = child > 0
-        if child <= 0:
-            return sim, [], dict(notes, note="the follower did not fork a dump child")
-        # reconnect: the leader's snapshot (position k) is installed while the child is still blocked
+        sim.tick(F, 0.0)                                   # __tryLogCompaction forks the dump writer
+        child[0] = getattr(f_ser, "_Serializer__pid")
+        notes["child_forked"] = child[0] > 0
+
+    def is_chunk(m):
+        return m.get("type") == "append_entries" and m.get("serialized") is not None
+
+    try:
+        # reconnect and drive until the leader's whole snapshot burst is in flight, nothing of it delivered yet
         sim.connect(L, F)
-        for _ in range(12):
+        for _ in range(20):
             sim.tick(L, 0.0625)
-            sim.deliver_all(among={L, F})
-            if sim.P(F, "raftLastApplied") >= k_pos:
+            while sim.chan[(L, F)] and not is_chunk(sim.chan[(L, F)][0]):
+                sim.deliver(L, F)
+            while sim.deliver(F, L):
+                pass
+            if sim.chan[(L, F)] and is_chunk(sim.chan[(L, F)][0]):
                 break
+        chunks = [m for m in sim.chan[(L, F)] if is_chunk(m)]
+        notes["chunks"] = len(chunks)
+        if len(chunks) < 3 or not chunks[0]["serialized"][1] or not chunks[-1]["serialized"][2]:
+            return sim, [], dict(notes, note="no multi-chunk snapshot burst in flight", child_forked=False)
+        start_at = {"before-first-chunk": 0, "between-chunks": len(chunks) // 2, "before-last-chunk": len(chunks) - 1}[when]
+        delivered = 0
+        while sim.chan[(L, F)]:
+            m = sim.chan[(L, F)][0]
+            if is_chunk(m):
+                if delivered == start_at:
+                    start_child()
+                delivered += 1
+            sim.deliver(L, F)
+        notes["child_started_after_chunks"] = start_at
+        if child[0] <= 0:
+            return sim, [], dict(notes, note="the follower did not fork a dump child")
+        while sim.deliver(F, L):
+            pass
         notes["installed_position"] = _dump_pos(sim, fn)
-        notes["child_pid_after_install"] = getattr(f_ser, "_Serializer__pid")
+        notes["applied_after_install"] = sim.P(F, "raftLastApplied")
+        if sim.P(F, "raftLastApplied") < k_pos:
+            return sim, [], dict(notes, note="the snapshot was not installed", child_forked=False)
         # more entries are replicated to F and acknowledged (no tick on F: its compaction check does not run yet)
         for x in range(3):
             sim.submit(L, "y%d" % x)
@@ -108,15 +153,15 @@ def scenario(repo, tmpdir, seed=1):
             while sim.deliver(F, L):
                 pass
         acked = 0
-        for (s, d, m) in sim.sent:
-            if s == F and m["type"] == "next_node_idx" and m["success"]:
+        for (s_, d, m) in sim.sent:
+            if s_ == F and m["type"] == "next_node_idx" and m["success"]:
                 acked = max(acked, m["next_node_idx"] - 1)
         notes["acknowledged_up_to"] = acked
     finally:
         os.write(wfd, b"x" * 16)                           # release the child (if it still exists)
-        if child > 0:
+        if child[0] > 0:
             try:
-                os.waitid(os.P_PID, child, os.WEXITED | os.WNOWAIT)
+                os.waitid(os.P_PID, child[0], os.WEXITED | os.WNOWAIT)
             except OSError:
                 pass                                       # already reaped (repaired code kills and waits)
         os.close(rfd)
@@ -125,8 +170,10 @@ def scenario(repo, tmpdir, seed=1):
             del sermod.open
         else:
             sermod.open = saved_open
+    del verdicts[:]
     sim.tick(F, 0.0625)                                    # checkSerializing
     sim.tick(F, 0.0625)
+    notes["verdicts_after_install"] = [list(v) for v in verdicts]
     notes["dump_position_after_child"] = _dump_pos(sim, fn)
     before = [e[0] for e in sim.log_of(F)]
     notes["journal_before_kill"] = (before[0], before[-1])
@@ -136,13 +183,17 @@ def scenario(repo, tmpdir, seed=1):
     after = [e[0] for e in sim.log_of(F)]
     notes["journal_after_restart"] = (after[0], after[-1]) if after else None
     dp = notes["dump_position_after_child"]
-    if not isinstance(dp, int) or dp < notes["installed_position"] or not after or after[-1] < notes["acknowledged_up_to"]:
+    success_for_stopped = any(v[0] == 2 and v[1] is not None and v[1] < k_pos - 1 for v in verdicts)
+    if not isinstance(dp, int) or dp < notes["installed_position"] or not after or after[-1] < notes["acknowledged_up_to"] \
+            or success_for_stopped:
         viols.append({"signature": SIG,
-                      "what": "follower %s (useFork) installed the leader's snapshot at position %s while its own dump child for "
-                              "position %s was running; the child then renamed its older dump over it: dump file now at position %s, "
+                      "what": "follower %s (useFork) forked its own dump child for position %s %s (after %d of %d chunks of the "
+                              "leader's snapshot) and installed that snapshot at position %s while the child was running; the child "
+                              "then renamed its older dump over it: dump file now at position %s, checkSerializing verdicts %s, "
                               "journal %s..%s; after kill/restart the journal holds %s although %s had acknowledged up to %s"
-                              % (F, notes["installed_position"], j_pos, dp, before[0], before[-1],
-                                 notes["journal_after_restart"], F, notes["acknowledged_up_to"])})
+                              % (F, j_pos, when, notes["child_started_after_chunks"], notes["chunks"], notes["installed_position"], dp,
+                                 notes["verdicts_after_install"], before[0], before[-1], notes["journal_after_restart"], F,
+                                 notes["acknowledged_up_to"])})
     return sim, viols, notes
 
 
@@ -214,20 +265,27 @@ def scenario_killed_writer(repo, tmpdir, seed=1):
 
 def run(ctx):
     t0 = time.time()
-    sim, viols, notes = scenario(ctx.repo, ctx.tmpdir())
+    viols, notes = [], {}
+    for when in WHEN:
+        sim, v, n = scenario(ctx.repo, ctx.tmpdir(), when=when)
+        notes[when] = n
+        viols.extend(tag(v, "d66_own_dump_overwrites_installed_snapshot", {"when": when}))
     v2, n2 = scenario_killed_writer(ctx.repo, ctx.tmpdir())
-    viols = viols + v2
-    notes = dict(notes, killed_writer=n2)
-    r = result("witness.d66_own_dump_overwrites_installed_snapshot",
-               tag(viols, "d66_own_dump_overwrites_installed_snapshot", {}), notes, t0)
-    r["cases"] = r["distinct"] = 2
-    if not viols and not notes.get("child_forked") and hasattr(os, "fork"):
-        r["inconclusive"] = "D66 witness: the follower never forked a dump child: %s" % notes
+    viols.extend(tag(v2, "d66_own_dump_overwrites_installed_snapshot", {"when": "killed-writer"}))
+    notes["killed_writer"] = n2
+    r = result("witness.d66_own_dump_overwrites_installed_snapshot", viols[:3], notes, t0)
+    r["cases"] = r["distinct"] = len(WHEN) + 1
+    if not viols and hasattr(os, "fork"):
+        idle = [w for w in WHEN if not notes[w].get("child_forked")]
+        if idle:
+            r["inconclusive"] = "D66 witness: no dump child forked / no install in variants %s: %s" % (idle, {w: notes[w] for w in idle})
     return r
 
 
 def replay(ctx, violation):
-    sim, viols, notes = scenario(ctx.repo, ctx.tmpdir())
-    v2, n2 = scenario_killed_writer(ctx.repo, ctx.tmpdir())
-    viols = viols + v2
-    return {"violated": bool(viols), "violations": viols[:3], "notes": dict(notes, killed_writer=n2)}
+    when = violation.get("replay", {}).get("when", "before-first-chunk")
+    if when == "killed-writer":
+        viols, notes = scenario_killed_writer(ctx.repo, ctx.tmpdir())
+    else:
+        sim, viols, notes = scenario(ctx.repo, ctx.tmpdir(), when=when)
+    return {"violated": bool(viols), "violations": viols[:3], "notes": notes}
